@@ -13,7 +13,8 @@ ASSUMPTIONS = ["symbolic links planted inside a dataset directory are outside th
                "check of ShardsList.load_or_create is exercised with them (a list outside the root must be refused, wherever the link points)",
                "the dataset directory contains no symbolic links (the property quantifies over path strings)", "POSIX path semantics"]
 TRUSTED = ["modelled-not-verified: pathlib's parser (compared with M-PATH's `parse` on every generated string), the operating system's path resolution"]
-COMPS = ["a", "..", ".", "", "...", "..a", "a..", "shards_list.json", "x.fb", "train", "b c", "é"]
+COMPS = ["a", "..", ".", "", "...", "..a", "a..", "shards_list.json", "x.fb", "train", "b c", "é",
+         "..\\x.fb", "\\tmp\\x.fb", "a\\..\\..\\b"]       # a backslash is an ordinary file-name character on POSIX
 
 
 def gen_strings(ctx):
@@ -96,7 +97,8 @@ def hostile_cases(args):
                 shutil.rmtree(work / "train" / "a")
                 (work / "train" / "a").symlink_to(tgt / "train", target_is_directory=True)
             elif tamper["field"] == "shard":
-                target = tamper["path"].replace("$OUT", str(oshard)).replace("$RELOUT", os.path.relpath(oshard, work))
+                target = (tamper["path"].replace("$BSOUT", str(oshard).replace("/", "\\")).replace("$BSRELOUT", os.path.relpath(oshard, work).replace("/", "\\"))
+                          .replace("$OUT", str(oshard)).replace("$RELOUT", os.path.relpath(oshard, work)))
                 d["shard_files"][0]["file_infos"][0]["file_path"] = target
                 d["shard_files"][0]["file_infos"][0]["hash_checksums"] = list(ods.dataset_structure.hash_checksum_algorithms and
                     __import__("sedpack.io.utils", fromlist=["x"]).hash_checksums(oshard, ods.dataset_structure.hash_checksum_algorithms))
@@ -124,7 +126,7 @@ def hostile_cases(args):
                         got = "ok"
                     else:
                         got, _ = I.run_iface(dd, action, "train", shuffle=0, T=2)
-                except Exception as e:  # noqa: BLE001
+                except BaseException as e:  # noqa: BLE001  (a panic of the Rust reader is a BaseException)
                     got = f"{type(e).__name__}: {str(e)[:80]}"
                 def is_outside(p):
                     rp = os.path.realpath(p)
@@ -183,6 +185,7 @@ def run(ctx):
         if diffs: corr_bad.append({"string": s, "diffs": diffs})
     # ---- crafted datasets
     tampers = [{"field": "shard", "path": "$OUT"}, {"field": "shard", "path": "$RELOUT"}, {"field": "shard", "path": "train/../../../outside/ods/train/x.fb"},
+               {"field": "shard", "path": "$BSRELOUT"}, {"field": "shard", "path": "$BSOUT"},      # the same locations spelled with backslashes
                {"field": "child", "path": "$OUT"}, {"field": "child", "path": "$RELOUT"}, {"field": "self", "path": "$RELOUT"}, {"field": "self", "path": "$OUT"},
                {"field": "symlink", "path": "unrelated"}, {"field": "symlink", "path": "prefix-sibling"}]
     actions = ["open", "check", "sync", "concurrent", "write"] + (["rust", "tf", "async"] if ctx.thorough else ["rust"])
